@@ -121,6 +121,18 @@ Theorem C08_defaulted_config_ok :
 Proof. exact cfg_of_options_ok. Qed.
 Print Assumptions C08_defaulted_config_ok.
 
+(* The deprecated constructor kafka.NewWriter(WriterConfig): the effective configuration is that
+   of the mapped fields — the configured BatchBytes / BatchSize / MaxAttempts ARE the limits
+   (zero = documented default).  op nwc compares the real constructor field by field. *)
+Theorem C08_newwriter_config_carried : forall c wt retr,
+  cfg_of_writer_config c wt retr = cfg_of_options (options_of_writer_config c) (wc_async c) wt retr /\
+  batchBytes (cfg_of_writer_config c wt retr) = Z.to_N (dflt (wc_batchBytes c) 1048576) /\
+  batchSize (cfg_of_writer_config c wt retr) = Z.to_nat (dflt (wc_batchSize c) 100) /\
+  maxAttempts (cfg_of_writer_config c wt retr) = Z.to_nat (dflt (wc_maxAttempts c) 10) /\
+  cfg_ok (cfg_of_writer_config c wt retr).
+Proof. exact cfg_of_writer_config_eq. Qed.
+Print Assumptions C08_newwriter_config_carried.
+
 Example C08_zero_means_default :
   let c := cfg_of_options (mkOpt 0 0 0 0 0 0 0 0)%Z false None (fun _ => false) in
   batchSize c = 100 /\ batchBytes c = 1048576%N /\ maxAttempts c = 10 /\
